@@ -108,6 +108,8 @@ package processorqueue
 //@   modifies now
 //@ iface SharedQueueI.DequeueIfValueRelevant
 //@   modifies now
+//@ iface SharedQueueI.Remove
+//@   modifies now
 
 //@ func (*queueProcessor).processQueueItem
 //@   prop C06
@@ -159,3 +161,25 @@ package processorqueue
 //@   modifies allof(Request.state), allof(Request.result), allof(Request.waitGroup), allof(Request.gAdmitted), opall(Request.waitGroup), gLastAllowed, gEnqStamp, now
 //@   loop 1 modifies allof(Request.state), allof(Request.result), allof(Request.waitGroup), allof(Request.gAdmitted), opall(Request.waitGroup), gLastAllowed, gEnqStamp
 //@   ensures[watch-list-untouched] forall(k, string, (in(k, p.requestsWatcher.requests) <==> old(in(k, p.requestsWatcher.requests))) && p.requestsWatcher.requests[k] == old(p.requestsWatcher.requests[k]))
+
+// ---------------------------------------------------------------- the verdict handed to the flow
+// a request that found no slot is rejected at once; otherwise the answer is exactly the verdict the request was given
+//@ func (*queueProcessor).enqueue
+//@   prop C06
+//@   mode seq
+//@   requires p.requestsWatcher != nil && watchOK(p.requestsWatcher)
+//@   allocates Request
+//@   modifies mapof(p.requestsWatcher.requests), mapof(p.requestsWatcher.requestsExpireAt), opof(p.requestsWatcher.requestCount), gEnqStamp, now
+//@   spawn modifies mapof(p.requestsWatcher.requests), mapof(p.requestsWatcher.requestsExpireAt), opof(p.requestsWatcher.requestCount)
+//@   ensures[full-queue-rejects] old(atomicval(p.requestsWatcher.requestCount)) >= p.maxQueueSize ==> !result
+//@   ensures[answer-is-the-verdict] old(atomicval(p.requestsWatcher.requestCount)) < p.maxQueueSize ==> (result <==> req.result == requestSuccess)
+//@   ensures[own-request] req != nil && req.apiStream == apiStream && req.priority == priority
+
+//@ func (*queueProcessor).Execute
+//@   prop C06
+//@   mode seq
+//@   requires p.requestsWatcher != nil && watchOK(p.requestsWatcher)
+//@   allocates Request
+//@   modifies mapof(p.requestsWatcher.requests), mapof(p.requestsWatcher.requestsExpireAt), opof(p.requestsWatcher.requestCount), gEnqStamp, now
+//@   ensures[allowed-or-blocked] result1 == nil && (result0.Name == "allowed" || result0.Name == "blocked")
+//@   ensures[allowed-iff-verdict] result0.Name == "allowed" <==> canProcess
